@@ -166,7 +166,10 @@ class WithDetails:
 
         class D(MismatchDecorator):
             def get_details(self):
-                return details
+                # a decorator that adds its entries to what the wrapped mismatch hands back
+                d = self.original.get_details()
+                d.update(details)
+                return d
         return D(mm)
 
 
@@ -248,6 +251,14 @@ def x_assert(ctx, case):
         ctx.check(raised is None, "expectThat.never-raises", detail)
         clean = "addSkip" if case.get("where") == "setUp-then-skip" else "addSuccess"
         ctx.check(outs == ([clean] if want else ["addFailure"]), "expectThat.test-fails-afterwards", detail)
+    if not want:
+        # what one mismatch's details were decorated with never shows up on an unrelated mismatch
+        from testtools.matchers import Equals, StartsWith, MatchesAll
+        stray = {}
+        for other in (Equals(1).match(2), StartsWith("a").match("b"), MatchesAll(Equals(1), Equals(3)).match(2)):
+            stray.update(other.get_details())
+        ctx.check(not stray, "mismatch-details.non-clobbering",
+                  lambda: {"details of unrelated, freshly made mismatches": sorted(stray), **detail()})
     if not want and how != "assert_that":
         have = observed["details"]
         ok = all(have.get(name) == text.encode("utf8") for name, text in pre)
